@@ -84,7 +84,10 @@ Print Assumptions C04_exactly_one.
    `sem_stmts` of the tree (Proofs.LoopLink: basic command = its Minecraft meaning; chain =
    first true condition in source order / else / nothing, with the flag zeroed before and set
    after a wrapped branch; loops = the JavaScript unfolding) relates st to st'.
-   Hypothesis: testing a chain condition does not write __if_else__ (keeps_stmts). *)
+   Hypothesis: testing a chain condition does not write __if_else__ (keeps_stmts).
+   (`return`: MC.Sem has no such command, a `return …` line is an opaque no-op here; compile_body stores a wrapped
+   branch body that can return in a function of its own — Model.Loop.isolate — which this theorem shows to be
+   meaning-preserving for MC.Sem; what it buys for Minecraft's `return` is stated at the end of this file.) *)
 Theorem C04_any_nesting_depth :
   forall nm ft env prog lines fs,
     compile_body nm prog = Some (lines, fs) ->
@@ -351,3 +354,87 @@ Proof.
   split; [intros n st; reflexivity|].
   repeat split; vm_compute; reflexivity.
 Qed.
+
+(* ================= `return` inside a branch (fixes/C04-return-in-branch.patch) =================
+   MC.Syntax / MC.Sem have no `return`: in the theorems above a line `return 1` is an opaque command
+   (`COther`) that does nothing, so they describe bodies that run to their last line.  Proofs.IfElseReturn
+   adds Minecraft's `return` — it leaves THE FUNCTION IT IS WRITTEN IN — as a conservative layer over
+   MC.Sem (`rruns` on lists of `rline`s: commands, guarded calls of functions that may return, guarded
+   `return …` / `return run <cmd>`).  `C04_rsem_conservative`: lines without them mean what MC.Sem says. *)
+From JMCV Require Import Proofs.IfElseReturn.
+
+Theorem C04_rsem_conservative :
+  forall ft env rft l st st', rruns ft env rft (map RL l) st st' <-> runs ft env l st st'.
+Proof. exact rruns_plain. Qed.
+Print Assumptions C04_rsem_conservative.
+
+(* The tree before the repair wrote a wrapped branch's body directly in the branch function, followed by
+   the flag line.  REFUTED: a body `pre…; return;` ends without the flag line having run (the whole rest of
+   the function is dead code) — so "a wrapped branch = its body, then flag := 1", on which
+   C04_chain_runs_selected_branch rests, is false for bodies that return … *)
+Theorem C04_return_in_branch_function_refuted :
+  forall nm ft env rft pre post st st',
+    rruns ft env rft (map RL pre ++ RRet [] None :: post ++ [RL (set_flag nm 1)]) st st' <-> runs ft env pre st st'.
+Proof. exact unisolated_branch_function. Qed.
+Print Assumptions C04_return_in_branch_function_refuted.
+
+(* … and the chain then runs a SECOND part: for `if (c0) { pre…; return; } else <e>` lowered the old way,
+   whenever c0 holds and `pre` leaves the flag alone, the caller runs `pre` AND THEN the else part e. *)
+Theorem C04_return_runs_two_branches_refuted :
+  forall nm ft env rft c0 f0 pre e,
+    keeps_flag nm ft env c0 ->
+    rft f0 = Some (map RL pre ++ [RRet [] None; RL (set_flag nm 1)]) ->
+    forall st st1 st2 st',
+      runs ft env (c_pre c0) (set_sc st (flag nm) 0) st1 -> tests_hold st1 (c_tests c0) = true ->
+      runs ft env pre st1 st2 -> sc st2 (flag nm) = sc st1 (flag nm) ->
+      steps ft env e st2 st' ->
+      rruns ft env rft (caller2 nm c0 f0 e) st st'.
+Proof. exact chain2_unisolated_runs_both. Qed.
+Print Assumptions C04_return_runs_two_branches_refuted.
+
+(* witness: `if ($a == 1) { X0; return; } else X1` from $a = 1 — the trace shows X0 and then X1 *)
+Example C04_return_refuted_witness :
+  exists st', rruns w_ft w_env w_rft (caller2 w_nm w_c0 w_f0 (CExt 1)) w_st st' /\ tr st' = [EExt 1; EExt 0].
+Proof. exact witness_runs_both. Qed.
+Print Assumptions C04_return_refuted_witness.
+
+(* The repaired compiler (Model.Loop.isolate, part of compile_body and hence of the text the check compares)
+   stores a body that can `return` in a function of its own; the branch function is `function <inner>` + the flag
+   line.  FULL: for EVERY body — returning at any point, conditionally, through `return run`, from nested calls —
+   the branch function means "the body, then flag := 1": the contract of Model.IfElse.wbr_fn. *)
+Theorem C04_return_isolated_branch_function :
+  forall nm ft env rft inner body st st',
+    rft inner = Some body ->
+    (rruns ft env rft [RCall [] inner; RL (set_flag nm 1)] st st' <->
+     exists st1, rruns ft env rft body st st1 /\ st' = set_sc st1 (flag nm) 1).
+Proof. exact isolated_branch_function. Qed.
+Print Assumptions C04_return_isolated_branch_function.
+
+(* … and the two-part chain runs exactly one part, for every body (any `rline` list) of the first branch:
+   the caller terminates in st' iff, st1 being the state the test of c0 leaves, either c0 holds, the body takes
+   st1 to st2 and st' = st2[flag := 1] — the else part does NOT run — or c0 fails and the else part takes st1 to st'. *)
+Theorem C04_return_isolated_exactly_one :
+  forall nm ft env rft c0 f0 g0 body0 e,
+    keeps_flag nm ft env c0 ->
+    rft f0 = Some [RCall [] g0; RL (set_flag nm 1)] -> rft g0 = Some body0 ->
+    forall st st',
+      rruns ft env rft (caller2 nm c0 f0 e) st st' <->
+      exists st1, runs ft env (c_pre c0) (set_sc st (flag nm) 0) st1 /\
+                  if tests_hold st1 (c_tests c0)
+                  then exists st2, rruns ft env rft body0 st1 st2 /\ st' = set_sc st2 (flag nm) 1
+                  else steps ft env e st1 st'.
+Proof. exact chain2_isolated. Qed.
+Print Assumptions C04_return_isolated_exactly_one.
+
+(* the isolation is what compile_body does: a body one of whose lines contains the word `return` is replaced
+   by the call of a freshly numbered function holding it (non-vacuity of the textual test) *)
+Example C04_isolate_example :
+  let nm := default_names in
+  isolate nm [CSay "A"; COther "return 1"] alloc0 =
+    ([call_func nm IF_ELSE 0], mkAlloc [(IF_ELSE, 1%nat)] [(priv_fn nm IF_ELSE 0, [CSay "A"; COther "return 1"])]) /\
+  isolate nm [CExecute [MIf true (Matches ("$b", "__variable__") (Exact 1))] (COther "return run say x")] alloc0 =
+    ([call_func nm IF_ELSE 0],
+     mkAlloc [(IF_ELSE, 1%nat)]
+             [(priv_fn nm IF_ELSE 0, [CExecute [MIf true (Matches ("$b", "__variable__") (Exact 1))] (COther "return run say x")])]) /\
+  isolate nm [CSay "no returning here"; CSay "x"] alloc0 = ([CSay "no returning here"; CSay "x"], alloc0).
+Proof. vm_compute. repeat split. Qed.
